@@ -35,6 +35,9 @@
 (declare-fun unq_str ((Array Int Int) Int Int) Str)
 ; decimal rendering of a natural number by strconv.FormatUint / Itoa (uninterpreted, assumed canonical)
 (declare-fun decimal_of (Int) Str)
+; strings.Count(s, sub) for a non-empty sub: number of non-overlapping occurrences (uninterpreted; only equality of two
+; counts of the same arguments is ever used)
+(declare-fun strcount (Str Str) Int)
 
 ; ---- user type names in a list of strings (C05): how many of the first k strings start with '@' ----
 (define-fun isat ((s Str)) Bool (and (> (slen s) 0) (= (sat s 0) 64)))
